@@ -549,7 +549,7 @@ class FnReport(object):
         return sum(1 for r in self.results if r.status == 'unsat')
 
 
-def verify(contract, timeout_ms=20000, case_filter=None, mutate=None, verbose=False):
+def verify(contract, timeout_ms=20000, case_filter=None, mutate=None, verbose=False, stop_at_first_failure=False):
     """Explore the real function under `contract`; returns FnReport."""
     t_start = time.time()
     mod, qual = split_target(contract.target)
@@ -571,7 +571,8 @@ def verify(contract, timeout_ms=20000, case_filter=None, mutate=None, verbose=Fa
             cfg['loop_specs'] = contract.loop_specs()
             I = Interp(ctx, cfg)
             if mutate is not None:
-                I.ast_mutation = mutate
+                I.ast_mutation = (contract.target, mutate)
+                aux_box['I'] = I
             ctx.case = case
             args, kwargs, aux = contract.setup(I, case)
             aux_box['aux'] = aux
@@ -631,6 +632,11 @@ def verify(contract, timeout_ms=20000, case_filter=None, mutate=None, verbose=Fa
                 rep.results.append(r)
                 if verbose:
                     print('   %-60s %-8s %s %.3fs' % (ob.name, st, be, secs))
+                if stop_at_first_failure and st != 'unsat':
+                    rep.stopped_early = True
+                    break
+            if getattr(rep, 'stopped_early', False):
+                break
             # vacuity guard: a path whose hypotheses (path condition, assumed library contracts with their quantified axioms,
             # lemmas assumed after being proved) are contradictory is infeasible and proves nothing; such paths do not count
             # towards the reachability covers below
@@ -689,11 +695,17 @@ def verify(contract, timeout_ms=20000, case_filter=None, mutate=None, verbose=Fa
                 per_label[lab] = per_label.get(lab, 0) + 1
                 rep.cross = getattr(rep, 'cross', []) + [{'case': label, 'path': pi, 'outcome': lab, 'witness': w,
                                                             'lib': sorted(a for a in p.axioms_used if a.startswith('A-LIB') or a.startswith('numpy') or a.startswith('contract:'))[:6]}]
+        if mutate is not None and aux_box.get('I') is not None:
+            rep.mutation = getattr(aux_box['I'], 'mutation_applied', None)
+            from . import interp as _ip
+            rep.mutation_executed = getattr(aux_box['I'], 'mutation_line', None) in _ip.MUT_LINES
         rep.paths += n_live
         rep.cases.append({'label': label, 'paths': n_live, 'outcomes': outcomes})
         for want in contract.expected_outcomes(case):
             key = '%s:%s' % (label, want)
             rep.covers[key] = outcomes.get(want, 0) - outcomes_infeasible.get(want, 0) > 0
+        if getattr(rep, 'stopped_early', False):
+            break
     rep.wall_s = time.time() - t_start
     return rep
 
